@@ -135,6 +135,20 @@ impl MemServer {
 		http_call(&mut svc, req).await
 	}
 
+	/// POST a body that arrives in several data frames (no content-length), directly on the tower service.
+	pub async fn http_post_frames(&self, frames: Vec<Vec<u8>>) -> HttpReply {
+		let frames: Vec<Result<http_body::Frame<Bytes>, std::convert::Infallible>> = frames.into_iter().map(|f| Ok(http_body::Frame::data(Bytes::from(f)))).collect();
+		let body = http_body_util::StreamBody::new(tokio_stream::iter(frames));
+		let req = http::Request::builder()
+			.method("POST")
+			.uri("http://localhost/")
+			.header("host", "localhost")
+			.header("content-type", "application/json")
+			.body(body)
+			.expect("request");
+		self.http(req).await
+	}
+
 	/// POST `body` as application/json in one frame, directly on the tower service.
 	pub async fn http_post(&self, body: Vec<u8>) -> HttpReply {
 		let req = http::Request::builder()
@@ -174,7 +188,14 @@ where
 	RB: http_body::Body<Data = Bytes>,
 	RB::Error: std::fmt::Debug,
 {
-	match svc.call(req).await {
+	// a panic inside the library's service future is a finding of its own (recorded by the panic hook); the harness
+	// survives it and reports status 0
+	use futures_util::FutureExt;
+	let called = match std::panic::AssertUnwindSafe(svc.call(req)).catch_unwind().await {
+		Ok(r) => r,
+		Err(_) => return HttpReply { status: 0, headers: vec![], body: vec![], error: Some("the service future panicked".into()) },
+	};
+	match called {
 		Ok(resp) => {
 			let (parts, body) = resp.into_parts();
 			let headers =
